@@ -21,8 +21,11 @@ static size_t *call_sizes; static size_t ncalls_cap;
 static int pending_eintr;
 static uint64_t n_partial, n_eintr, max_fragments_cur, max_fragments;
 
+static int big_mode;
+ssize_t big_write_hook(int fd, const void *buf, size_t n);
 ssize_t __wrap_write(int fd, const void *buf, size_t n)
 {
+	if (big_mode) return big_write_hook(fd, buf, n);
 	if (!plan_active) return __real_write(fd, buf, n);
 	pthread_mutex_lock(&plan_mu);
 	size_t i = call_idx++;
@@ -224,6 +227,60 @@ static void case_multi(const args_t *a, long c, rng_t *r)
 	model_free(&m);
 }
 
+/* ---- one write(2) request larger than 2^31 bytes, answered with a short write of exactly 2^31 bytes (legal: "partial of any
+ * length >= 1").  Linux itself never transfers more than 0x7ffff000 bytes per call, so the shim fulfils the 2^31 bytes with several
+ * real writes and then reports them as one.  Needs ~4.5 GiB of disk and ~4 GiB of memory: thorough tier, -O2 build. */
+static ssize_t real_write_fully(int fd, const uint8_t *p, size_t n)
+{
+	size_t done = 0;
+	while (done < n) { ssize_t w = __real_write(fd, p + done, n - done); if (w < 0 && errno == EINTR) continue; if (w <= 0) return -1; done += (size_t)w; }
+	return (ssize_t)done;
+}
+/* big_mode (declared above) 1: pass through completely (reference); 2: answer the first request > 2^31 with exactly 2^31 */
+static int big_fired;
+ssize_t big_write_hook(int fd, const void *buf, size_t n)
+{
+	if (big_mode == 2 && !big_fired && n > (1ULL << 31)) { big_fired = 1; return real_write_fully(fd, buf, 1ULL << 31); }
+	return real_write_fully(fd, buf, n);
+}
+static void case_bigwrite(const args_t *a, long c, rng_t *r)
+{
+	(void)r;
+	char p1[4096], p2[4096];
+	snprintf(p1, sizeof p1, "%s/c20big-ref-%ld.mtbl", a->workdir, c); snprintf(p2, sizeof p2, "%s/c20big-out-%ld.mtbl", a->workdir, c);
+	size_t lv = (1ULL << 31) + 8192 + (size_t)c * 4096;
+	uint8_t *val = calloc(1, lv);
+	if (!val) { inconclusive("cannot allocate %zu bytes", lv); return; }
+	val[0] = 1; val[lv / 2] = 2; val[lv - 1] = 3;
+	for (int mode = 1; mode <= 2; mode++) {
+		const char *path = mode == 1 ? p1 : p2;
+		unlink(path);
+		struct mtbl_writer_options *wo = mtbl_writer_options_init();
+		mtbl_writer_options_set_compression(wo, MTBL_COMPRESSION_NONE);
+		struct mtbl_writer *w = mtbl_writer_init(path, wo);
+		mtbl_writer_options_destroy(&wo);
+		big_mode = mode; big_fired = 0;
+		if (mtbl_writer_add(w, (const uint8_t *)"a", 1, (const uint8_t *)"small", 5) != mtbl_res_success) inconclusive("add refused");
+		if (mtbl_writer_add(w, (const uint8_t *)"big", 3, val, lv) != mtbl_res_success) inconclusive("add refused");
+		if (mtbl_writer_add(w, (const uint8_t *)"z", 1, (const uint8_t *)"tail", 4) != mtbl_res_success) inconclusive("add refused");
+		mtbl_writer_destroy(&w);
+		big_mode = 0;
+		if (mode == 2 && !big_fired) inconclusive("no write request above 2^31 bytes was seen");
+	}
+	free(val);
+	size_t l1, l2; uint8_t *m1 = map_file(p1, &l1), *m2 = map_file(p2, &l2);
+	if (!m1 || !m2) inconclusive("cannot map outputs");
+	else if (l1 != l2 || memcmp(m1, m2, l1) != 0) {
+		size_t d = 0; while (d < l1 && d < l2 && m1[d] == m2[d]) d++;
+		viol("C20/output-depends-on-write-fragmentation", "short write of exactly 2^31 bytes on a %zu-byte request: file is %zu bytes (reference %zu), first difference at %zu", lv + 9, l2, l1, d);
+	}
+	unmap_file(m1, l1); unmap_file(m2, l2);
+	unlink(p1); unlink(p2);
+	STAT("bigwrite.cases"); STAT("plans");
+	if (want_sample()) sample("bigwrite: one value of %zu bytes, uncompressed: the payload write(2) request exceeds 2^31 bytes and is answered with a short write of exactly 2^31", lv);
+	case_hash(lv);
+}
+
 int main(int argc, char **argv)
 {
 	args_t a;
@@ -231,6 +288,7 @@ int main(int argc, char **argv)
 	case_fn f = NULL;
 	if (!strcmp(a.sub, "single")) f = case_single;
 	else if (!strcmp(a.sub, "multi")) f = case_multi;
+	else if (!strcmp(a.sub, "bigwrite")) f = case_bigwrite;
 	else return 98;
 	return run_cases(&a, f);
 }
